@@ -155,7 +155,7 @@ Qed.
 
 (* index ties: z(0) a(1) m(0) B(-) q(-2) r(1)  ->  q, B, m, z, a, r   (B < m < z by name) *)
 Example sort_props_ex :
-  let mk k i := ((k, {| p_index := i; p_default := None |}, SLeaf TNull None false) : prop) in
+  let mk k i := ((k, {| p_index := i; p_default := None |}, SLeaf TNull None 0%nat) : prop) in
   map pkey (sort_props [mk [122] 0; mk [97] 4; mk [109] 0; mk [66] 0; mk [113] (-2); mk [114] 4])
   = [[113]; [66]; [109]; [122]; [97]; [114]].
 Proof. reflexivity. Qed.
